@@ -340,6 +340,20 @@ class Fn:
             self.rewrites.append(('R8', f'{n}x message argument of {ctor}(..)', stub))
         return self
 
+    def erase_struct_error(self, ctor, stub):
+        """R8: a struct-literal error value `CTOR { field: <message>, .. }` (messages built with format!/into) -> opaque stub constructor call"""
+        n = 0
+        while True:
+            m = re.search(re.escape(ctor) + r'\s*\{', self.body)
+            if not m:
+                break
+            c = match_brace(self.body, m.end() - 1)
+            self.body = self.body[:m.start()] + stub + self.body[c + 1:]
+            n += 1
+        if n:
+            self.rewrites.append(('R8', f'{n}x error literal {ctor} {{ .. }}', stub))
+        return self
+
     def erase_macro(self, name):
         """R8: remove every `name!( ... );` statement (tracing / logging)"""
         n = 0
@@ -483,6 +497,17 @@ class Unit:
         ex = extract_fn(relpath, container, name, self.cfgs)
         f = Fn(self, ex, qual or name)
         self.fns.append(f)
+        return f
+
+    def extract_impl_or_default(self, impl_path, impl_container, trait_path, trait_container, name, qual=None) -> Fn:
+        """the method as the implementor runs it: its override in the impl block if there is one, else the trait's provided (default) body"""
+        try:
+            return self.extract(impl_path, impl_container, name, qual)
+        except ExtractError as e:
+            if 'matched 0 items' not in str(e):
+                raise
+        f = self.extract(trait_path, trait_container, name, qual)
+        f.rewrites.append(('R12', f'provided method `{name}` of the trait (no override in the impl)', 'emitted as an inherent method of the implementor'))
         return f
 
     def emit(self, f: Fn, vis='pub'):
